@@ -92,9 +92,7 @@ def startsLoop : Option Int → Option Int → List Mode → Option Int × Optio
 def alignLoop (earliest latest : Int) : List Mode → List (List Seg)
   | [] => []
   | m :: ms =>
-    let st := match m.start with
-      | none => latest
-      | some s => s
+    let st := m.start.getD latest
     shift (st - earliest) m.segs :: alignLoop earliest latest ms
 
 /-- `modepb.Sum(modes...)`; `none` is the Go `nil` result for no modes. -/
